@@ -115,10 +115,11 @@ def run_for(ck, prop="C17"):
     exe = build()
     k = extract(exe)
     ck.extra["spinlock_memory_orders_from_code"] = k
-    configs = [(2, 2, 9)] if quick else [(2, 2, 10), (3, 1, 8), (2, 3, 13)]
-    for threads, rounds, maxh in configs:
+    # (threads, rounds, history bound, export+replay every transition?) - the largest one is model-checked only
+    configs = [(2, 2, 9, True)] if quick else [(2, 2, 10, True), (3, 1, 8, True), (2, 3, 13, True), (3, 2, 14, False)]
+    for threads, rounds, maxh, export in configs:
         label = f"lock-{threads}x{rounds}"
-        cfg = vlib.write_cfg(vlib.BUILD / "cfg" / f"SpinlockRA_{label}.cfg", cfg_text(k, threads, rounds, maxh, True))
+        cfg = vlib.write_cfg(vlib.BUILD / "cfg" / f"SpinlockRA_{label}.cfg", cfg_text(k, threads, rounds, maxh, export))
         r = vlib.tlc("SpinlockRA", cfg, timeout=900, coverage=quick)
         if r.error:
             raise vlib.Infra(r.error)
@@ -142,6 +143,8 @@ def run_for(ck, prop="C17"):
             for a in ("SpinAny", "Xchg", "CsRead", "CsWrite", "Unlock"):
                 if not vlib.enabled(r, a):
                     raise vlib.Infra(f"vacuity: {a} never enabled in SpinlockRA {label}")
+        if not export:
+            continue
         behs = vlib.behaviours(r)
         if not behs:
             raise vlib.Infra("SpinlockRA exported no behaviours")
